@@ -15,6 +15,9 @@ MODES = [
     ("exit(0)", "exit(0)", "R [] (BuiltinExit (AInt 0))"), ("exit(2)", "exit(2)", "R [] (BuiltinExit (AInt 2))"), ("quit(1)", "quit(1)", "R [] (BuiltinExit (AInt 1))"),
     ("uncaught ValueError", "raise ValueError('boom')", "R [] Uncaught"), ("uncaught AssertionError from pysnark", "PrivVal(1).assert_zero()", "R [] Uncaught"),
     ("KeyboardInterrupt", "raise KeyboardInterrupt()", "R [] KbdInterrupt"),
+    ("uncaught AssertionError from pysnark inside a guarded function", "rt.guarded(PrivVal(1))(lambda: PrivVal(1).assert_zero())()", "R [] Uncaught"),
+    ("uncaught ValueError inside a guarded function", "rt.guarded(PrivVal(1))(lambda: (_ for _ in ()).throw(ValueError('boom')))()", "R [] Uncaught"),
+    ("KeyboardInterrupt inside a guarded function", "rt.guarded(PrivVal(0))(lambda: (_ for _ in ()).throw(KeyboardInterrupt()))()", "R [] KbdInterrupt"),
     ("os._exit(0)", "sys.stdout.flush(); sys.stderr.flush(); os._exit(0)", "R [] (OsExit 0)"), ("os._exit(1)", "sys.stdout.flush(); sys.stderr.flush(); os._exit(1)", "R [] (OsExit 1)"),
     # histories: a sys.exit whose SystemExit is swallowed or replaced, then another way of ending
     ("sys.exit(0) swallowed, then uncaught ValueError", "try: sys.exit(0)\n    except SystemExit: pass\n    raise ValueError('boom')", "R [AInt 0] Uncaught"),
